@@ -490,7 +490,10 @@ func cmdCheck(args []string) int {
 		// not discharged, not a listed finding
 		rep := cc.tryReplay(o)
 		switch {
-		case rep != nil && rep.Reproduced:
+		case rep != nil && rep.Reproduced && !unclaimedOK[o.Name]:
+			// (an obligation recorded as unclaimed on the pinned tree needs facts from its callers: a counterexample
+			// that replays against the function alone says the function has a precondition, not that a client can
+			// reach it - it stays in the unclaimed list, marked as reproduced at function level)
 			nObl++
 			violations++
 			p := cc.writeReplay(o, "counterexample reproduced on the real code", rep)
@@ -503,7 +506,9 @@ func cmdCheck(args []string) int {
 			vioLines = append(vioLines, fmt.Sprintf("VIOLATION property=%s replay=%s no-failing-input-found", *prop, p))
 		default:
 			note := ""
-			if rep != nil {
+			if rep != nil && rep.Reproduced {
+				note = " reproduced at function level (needs a caller fact)"
+			} else if rep != nil {
 				note = " replay: " + rep.Note
 				if os.Getenv("SLOCKVC_DEBUG") != "" {
 					cc.writeReplay(o, "debug", rep)
